@@ -260,6 +260,18 @@ pub fn c10(opts: &Opts, out: &mut Out) {
                     verdicts.push(per_mode[0].1);
                     classes.insert((n, t, pname, *sname));
                 }
+                // every byte of the seed keys the recovery: a seed differing in a single byte never yields the true mask
+                if valid {
+                    for byte in 0..32usize {
+                        let mut b = seed.to_bytes();
+                        b[byte] ^= 1;
+                        let Some(s2) = Option::<Scalar>::from(Scalar::from_canonical_bytes(b)) else { continue };
+                        let stmt = inst.statement_with(inst.cap, Some(s2)).unwrap();
+                        let r = fmrun::verify_one(&inst, &stmt, &p, VerifyAction::RecoverOnly);
+                        let m = masks_of(&r).and_then(|v| v.into_iter().next()).flatten();
+                        out.oracle("C10:every-seed-byte-keys-recovery", m.is_some() && m.as_ref() != Some(&inst.blindings[0]), &format!("{} seed-byte={}", key, byte), "a seed differing in one byte recovers the true mask");
+                    }
+                }
                 out.oracle("C10:verdict-constant-across-seeds", verdicts.iter().all(|v| *v == verdicts[0]), &format!("{} proof={}", key, pname), "verdict changes with the seed");
             }
         }
@@ -285,8 +297,8 @@ pub fn c08(opts: &Opts, out: &mut Out) {
         }
         let pr = fmrun::params(n, 2, t);
         let ids = fmx::gen_ids(&pr, n);
-        // run a batch with given d1 offsets; return (ok, residual, logged weights)
-        let run = |offsets: &Vec<Vec<Scalar>>, r1off: &Vec<Scalar>| -> (bool, FP, Vec<Scalar>) {
+        // run a batch with given offsets on d1, r1 and s1; return (ok, residual, logged weights)
+        let run3 = |offsets: &Vec<Vec<Scalar>>, r1off: &Vec<Scalar>, s1off: &Vec<Scalar>| -> (bool, FP, Vec<Scalar>) {
             let ps: Vec<Proof> = proofs
                 .iter()
                 .enumerate()
@@ -296,6 +308,7 @@ pub fn c08(opts: &Opts, out: &mut Out) {
                         parts.d1[kk] += offsets[i][kk];
                     }
                     parts.r1 += r1off[i];
+                    parts.s1 += s1off[i];
                     parts.to_proof().unwrap()
                 })
                 .collect();
@@ -307,6 +320,8 @@ pub fn c08(opts: &Opts, out: &mut Out) {
             let recs = tap::take();
             (r.is_ok(), res, fmx::weights_of(&recs))
         };
+        let zs = vec![Scalar::ZERO; k];
+        let run = |offsets: &Vec<Vec<Scalar>>, r1off: &Vec<Scalar>| run3(offsets, r1off, &zs);
         let zero = vec![vec![Scalar::ZERO; t]; k];
         let zr = vec![Scalar::ZERO; k];
         let (ok0, _, w0) = run(&zero, &zr);
@@ -355,6 +370,25 @@ pub fn c08(opts: &Opts, out: &mut Out) {
                     let (_, rd, _) = run(&oa, &zr2);
                     let fi2 = rd.coord(ids.gb[kk]) * delta.invert();
                     out.oracle("C08:factor-depends-on-responses", fi2 != fi, &key, "factor of a proof unchanged after changing its r1");
+                    // ... when only s1 of member i changes
+                    let mut zs2 = zs.clone();
+                    zs2[i] = Scalar::ONE;
+                    let (_, re, _) = run3(&oa, &zr, &zs2);
+                    let fi3 = re.coord(ids.gb[kk]) * delta.invert();
+                    out.oracle("C08:factor-depends-on-responses", fi3 != fi, &key, "factor of a proof unchanged after changing its s1");
+                    // ... when only another d1 coordinate of member i changes
+                    if t >= 2 {
+                        let k2 = (kk + 1) % t;
+                        let mut oa2 = oa.clone();
+                        oa2[i][k2] += Scalar::ONE;
+                        let (_, rf, _) = run(&oa2, &zr);
+                        let fi4 = rf.coord(ids.gb[kk]) * delta.invert();
+                        out.oracle("C08:factor-depends-on-responses", fi4 != fi, &key, &format!("factor of a proof unchanged after changing its d1[{}]", k2));
+                    }
+                    // ... and the factor of the *other* member j changes too (every weight is re-randomised)
+                    let (_, rg, _) = run3(&ob, &zr, &zs2);
+                    let fj3 = rg.coord(ids.gb[kk]) * delta.invert();
+                    out.oracle("C08:ratio-changes-with-other-members-responses", fj3 != fj, &key, "factor of member j unchanged after changing s1 of member i");
                     classes.insert((n, k, t, kk));
                 }
             }
